@@ -2,11 +2,13 @@ import AscentVerif.Driver.Agg
 import AscentVerif.Driver.LatTypes
 import AscentVerif.Driver.Idx
 import AscentVerif.Driver.Engine
+import AscentVerif.Driver.UF
 open AscentVerif AscentVerif.Driver
 
 structure St where
   idx : Store := []
   eng : EngStore := {}
+  uf : UFStore := {}
 
 def step (st : St) (line : String) : St × String :=
   match Sexp.parseLine line with
@@ -17,6 +19,14 @@ def step (st : St) (line : String) : St × String :=
   | some (.atom "idx" :: rest) =>
     match handleIdx st.idx rest with
     | some (s', out) => ({ st with idx := s' }, out)
+    | none => (st, "bad-op")
+  | some (.atom "uf" :: rest) =>
+    match handleUf st.uf rest with
+    | some (s', out) => ({ st with uf := s' }, out)
+    | none => (st, "bad-op")
+  | some (.atom "tr" :: rest) =>
+    match handleTr st.uf rest with
+    | some (s', out) => ({ st with uf := s' }, out)
     | none => (st, "bad-op")
   | some (.atom "eng" :: rest) =>
     match handleEng st.eng rest with
